@@ -1326,12 +1326,29 @@ class Interp(Engine):
                 raise PyRaise(type(ex), str(ex), node)
         nm = getattr(fn, "__name__", repr(fn))
         if fn in (repr, str, format, hex, oct, bin, ascii) or nm in ("join", "format", "ljust", "rjust", "strip", "lstrip", "rstrip"):
-            return Opaque(nm)
+            return Opaque(nm, str, src=tuple(args))
         if nm == "write" and getattr(fn, "__self__", None) in (sys.stderr, sys.stdout):
             self.effects = getattr(self, "effects", None) or []
             self.effects.append(("write", "stderr" if fn.__self__ is sys.stderr else "stdout", getattr(node, "lineno", 0)))
             return None
         raise Unsupported("call of %s with symbolic arguments (line %d)" % (nm, getattr(node, "lineno", 0)))
+
+    def opaque_len(self, v):
+        """len() of an unmodelled text / bytes value: a non-negative unknown, the same for the same object, equal to the length
+        of the byte chunk a sink records for it"""
+        tab = self.__dict__.setdefault("opaque_lens", {})
+        ent = tab.get(id(v))
+        if ent is None:
+            n = self.fresh_int("len_" + (v.tag or "opaque"))
+            self.run.pc.append(n.e >= 0)
+            if v.tag == "repr" and v.src and isinstance(v.src[0], Opaque) and v.src[0].pytype is float:
+                self.assumed.add("repr() of a float is at most 32 characters long (CPython: at most 24)")
+                self.run.pc.append(n.e <= 32)
+            ch = self.__dict__.get("opaque_seqs", {}).get(id(v))
+            if ch is not None:
+                self.run.pc.append(z3.Length(ch[1]) == n.e)
+            tab[id(v)] = ent = (v, n)
+        return ent[1]
 
     def external_may_raise(self, c, node):
         """an external callee whose contract says may_raise: fork on 'it raised some exception (unknown class)'"""
@@ -1823,7 +1840,7 @@ def _m_len(self, args, kwargs, node, f):
     if isinstance(v, SObj):
         raise PyRaise(TypeError, "object has no len()", node)
     if isinstance(v, Opaque):
-        raise Unsupported("len() of an opaque value")
+        return self.opaque_len(v)
     try:
         return len(v)
     except TypeError:
@@ -2275,7 +2292,7 @@ def _m_print(self, args, kwargs, node, f):
 @model(repr, str)
 def _m_repr(self, args, kwargs, node, f):
     if args and (_deep_sym(args[0])):
-        return Opaque("text")
+        return Opaque("repr" if f is not None and isinstance(node, ast.Call) and isinstance(node.func, ast.Name) and node.func.id == "repr" else "text", str, src=tuple(args))
     try:
         return (repr if node is None else repr)(args[0]) if False else None
     except Exception:
@@ -2286,7 +2303,7 @@ def _m_repr(self, args, kwargs, node, f):
 def _m_text(fn):
     def m(self, args, kwargs, node, f):
         if any(_deep_sym(a) for a in args):
-            return Opaque(fn.__name__)
+            return Opaque(fn.__name__, str, src=tuple(args))
         try:
             return fn(*args, **kwargs)
         except Exception as ex:
